@@ -236,3 +236,35 @@ Proof.
   cbv zeta. split; [apply wf_viewb_spec; vm_compute; reflexivity|].
   split; [vm_compute; reflexivity|]. split; vm_compute; reflexivity.
 Qed.
+
+(* encoding/json ON STRINGS IS A MODEL, NOT AN ORACLE.  Model/JsonString.v is
+   json.Marshal on a Go string (the escaper of the Go release in use); for
+   EVERY byte string the strict parser reads its output back, in every
+   context, as the sanitized string (invalid bytes replaced by U+FFFD), and a
+   valid UTF-8 string is its own sanitization. *)
+From Tab Require Import Model.JsonString Proofs.JsonStringProofs.
+
+Theorem c07_string_encoding : forall s, str_ok (go_json_string s) (utf8_sanitize s).
+Proof. exact go_json_string_ok. Qed.
+Print Assumptions c07_string_encoding.
+
+Theorem c07_valid_utf8_is_itself : forall s, valid_utf8 s = true -> utf8_sanitize s = s.
+Proof. exact utf8_sanitize_valid. Qed.
+Print Assumptions c07_valid_utf8_is_itself.
+
+(* Hence the round trip with NO assumption about the encoding of header keys
+   and text fall-backs: the keys are the sanitized header texts (the header
+   texts themselves when they are valid UTF-8).  What remains an oracle is
+   json.Marshal of the ITEMS: each encoding that stands for a cell's value must
+   be valid JSON for the parser - a boolean computed from the table. *)
+Theorem c07_roundtrip_modelled_strings : forall v,
+  wf_view v -> item_encodings_validb v = true ->
+  match json_render go_json_string v with
+  | Ok out =>
+      ~ json_error_condition v
+      /\ parse_json out = Some (json_expected utf8_sanitize (cell_denotation utf8_sanitize dec_val) v)
+  | Err => json_error_condition v
+  | Panic => False
+  end.
+Proof. exact json_roundtrip_modelled_strings. Qed.
+Print Assumptions c07_roundtrip_modelled_strings.
